@@ -199,6 +199,7 @@ macro_rules! c04 {
         #[kani::stub(alloc::fmt::format, stub_format)]
         #[kani::stub(core::str::from_utf8, stub_from_utf8)]
         #[kani::stub(core::slice::memchr::memchr, stub_memchr)]
+        #[kani::stub(str::to_lowercase, stub_to_lowercase_ascii)]
         fn $name() { $body }
     };
 }
@@ -233,6 +234,41 @@ fn gs1_small() {
     core::mem::forget(r);
 }
 c04!(c04_t_gs1_small, gs1_small());
+
+/// GameSpy 1 without players: both spellings of the admin variable present -
+/// `AdminName` wins, `admin` is not consumed and stays in the unused entries;
+/// with only `admin` present it is the admin name and nothing is left over.
+#[cfg(kani)]
+fn gs1_admin(both: bool) {
+    let addr = any_addr_v4();
+    if both {
+        world().push_data(
+            b"\\hostname\\N\\mapname\\M\\gametype\\d\\gamever\\1\\maxplayers\\0\\password\\0\\AdminName\\A\\admin\\r\\final\\\\queryid\\7.1".to_vec(),
+        );
+    } else {
+        world().push_data(
+            b"\\hostname\\N\\mapname\\M\\gametype\\d\\gamever\\1\\maxplayers\\0\\password\\0\\admin\\r\\final\\\\queryid\\7.1".to_vec(),
+        );
+    }
+    let r = gamespy::one::query(&addr, None);
+    match &r {
+        Ok(x) => {
+            assert!(x.name == "N" && x.map == "M" && x.game_mode == "d" && x.game_version == "1");
+            assert!(x.players.len() == 0 && x.players_maximum == 0);
+            if both {
+                assert!(x.admin_name.as_deref() == Some("A"));
+                assert!(x.unused_entries.len() == 1 && expect(&x.unused_entries, "admin", "r"));
+            } else {
+                assert!(x.admin_name.as_deref() == Some("r"));
+                assert!(x.unused_entries.len() == 0);
+            }
+        }
+        Err(_) => assert!(false),
+    }
+    core::mem::forget(r);
+}
+c04!(c04_t_gs1_admin_name_and_admin, gs1_admin(true));
+c04!(c04_t_gs1_admin_only, gs1_admin(false));
 
 /// Small GameSpy 2 reply: one player, no teams.
 #[cfg(kani)]
